@@ -53,6 +53,8 @@ type harnessResult struct {
 	Funcs      []string          `json:"functions_encoded"`
 	Unwind     int               `json:"unwind"`
 	Solver     string            `json:"solver"`
+	Vectors    []vector          `json:"vectors"`
+	UsesStubs  bool              `json:"uses_stubs"`
 }
 
 type runResult struct {
@@ -95,7 +97,15 @@ func main() {
 	file := fs.String("file", "", "replay file")
 	verbose := fs.Bool("v", false, "verbose")
 	trace := fs.Bool("trace", false, "trace instructions (replay)")
+	params := fs.String("params", "", "harness parameters k=v,k=v (zzParam)")
 	fs.Parse(os.Args[2:])
+	for _, kv := range strings.Split(*params, ",") {
+		if k, v, ok := strings.Cut(kv, "="); ok {
+			var n int
+			fmt.Sscanf(v, "%d", &n)
+			engineParams[k] = n
+		}
+	}
 
 	if *pkg == "" || *hdir == "" {
 		fmt.Fprintln(os.Stderr, "need -pkg and -hdir")
@@ -298,7 +308,7 @@ func exploreHarness(p *program, fn *ssa.Function, nw int, solverKind string, tmo
 		Reached: ex.reached, AssertQ: ex.asserts, Cuts: ex.cutReasons, Unknowns: ex.unknowns, Truncated: ex.truncated,
 		Samples: ex.samples, Queries: stats.queries, Sat: stats.sat, Unsat: stats.unsat, SolverUnk: stats.unknown,
 		SolverErr: stats.errors, SolverTime: stats.duration.Seconds(), Wall: time.Since(t0).Seconds(), Steps: ex.stepsTotal,
-		Fault: fault, Unwind: unwind, Solver: solverKind}
+		Fault: fault, Unwind: unwind, Solver: solverKind, Vectors: ex.vectors, UsesStubs: ex.usesStubs}
 	for f := range funcs {
 		path := pkgPathOf(f)
 		if strings.HasPrefix(path, modPrefix) && !strings.HasPrefix(f.Name(), "zz") && !strings.HasPrefix(f.Name(), "ZZ_") {
@@ -362,6 +372,16 @@ func (w *worker) runPath(ex *explorer, fn *ssa.Function, prefix []decision, repl
 		in.sch.runOthers()
 	}()
 	in.sch.abortAll()
+	if fault == "" && res.end == "done" && len(ps.violations) == 0 {
+		func() {
+			defer func() {
+				if r := recover(); r != nil {
+					fault = fmt.Sprintf("engine fault while sampling a vector: %v", r)
+				}
+			}()
+			ps.takeVector(res.end)
+		}()
+	}
 	ps.end()
 	res.violations = ps.violations
 	res.steps = in.steps
